@@ -338,12 +338,7 @@ namespace vs
             cpu_set_t set; CPU_ZERO(&set); CPU_SET(cpu, &set);
             sched_setaffinity(0, sizeof(set), &set);
         }
-        if (s.pool_poisoned)
-        {
-            // abandoned threads stay parked forever; the new workers are cold (per-thread caches of the runtime), so warm them as at start-up
-            s.pool.clear(); s.pool_poisoned = false;
-            if (s.warmup && !s.in_warmup) { s.in_warmup = true; s.warmup(); s.in_warmup = false; }
-        }
+        if (s.pool_poisoned) { s.pool.clear(); s.pool_poisoned = false; }
         s.threads.clear(); s.owner.clear(); s.depth.clear(); s.touched.clear(); s.trace.clear(); s.events.clear();
         s.prefix = prefix; s.steps = 0; s.deadlock = s.livelock = false; s.failure.clear(); s.shared_grew = false;
         s.clock_ns = start_clock_ns; s.clock_reads = 0;
@@ -369,8 +364,17 @@ namespace vs
         sem_post(&s.threads[0]->sem);
         while (sem_wait(&s.done_sem) != 0) {}
         s.controlled = false;
-        if (s.deadlock) s.pool_poisoned = true;
         for (auto *t : s.threads) if (!s.deadlock) t->body = nullptr;
+        if (s.deadlock)
+        {
+            // the wedged execution's workers stay parked forever; their replacements are cold (per-thread caches of the runtime), so they
+            // are warmed exactly as at start-up before anything else runs on them. The result of THIS execution is preserved around that.
+            const auto trace = s.trace; const std::string failure = s.failure; const bool livelock = s.livelock;
+            s.pool.clear();
+            if (s.warmup && !s.in_warmup) { s.in_warmup = true; s.warmup(); s.in_warmup = false; }
+            if (s.deadlock && s.in_warmup == false && s.failure != failure) { /* a warm-up run must not wedge */ }
+            s.trace = trace; s.failure = failure; s.deadlock = true; s.livelock = livelock;
+        }
         return s.trace;
     }
 }  // namespace vs
